@@ -42,12 +42,16 @@ func pickS(r *vh.Rand, opts []string, weights ...int) string { return opts[r.Pic
 
 func newRunner(r *vh.Rand) vh.Runner {
 	rn := &runner{spec: scnSpec{client: "plain", vn: "none", chain: "short"}, seed: r.U64()}
-	client := pickS(r, []string{"plain", "chrome", "uplain"}, 55, 30, 15)
+	// client kinds: the plain client; the Chrome parrot (zero-length source connection IDs); the plain connection dialed
+	// through UTransport; the Firefox parrot (3-byte source connection IDs and an empty initial_source_connection_id
+	// placeholder in its spec, which every connection made from the spec value has to fill in with ITS OWN ID)
+	client := pickS(r, []string{"plain", "chrome", "uplain", "firefox"}, 45, 24, 11, 20)
 	retry := r.Chance(40)
 	vn := pickS(r, []string{"none", "ok", "fail"}, 70, 20, 10)
 	chain := pickS(r, []string{"short", "long"}, 75, 25)
 	zrtt := pickS(r, []string{"none", "accept", "reject", "reject-params"}, 80, 10, 6, 4)
 	psk := ""
+	zsize := ""
 	if zrtt != "none" {
 		// resumption scenarios: with or without a server Retry (the early data is in flight when the Retry arrives);
 		// the plain client, or the Chrome parrot dialed through UTransport.DialEarly with a pre_shared_key extension
@@ -58,6 +62,10 @@ func newRunner(r *vh.Rand) vh.Runner {
 		if client == "chrome" {
 			psk = " psk=" + pickS(r, []string{"psk", "psked", "strict", "none"}, 60, 15, 10, 15)
 		}
+		// how much early data the application writes: a few packets (all of it is on the wire before the server
+		// answers), more than the initial congestion window (stream data is still queued in the framer, and the Write call
+		// still blocked, when the server's accept / reject arrives), or more than the remembered stream flow-control window
+		zsize = " zsize=" + pickS(r, []string{"small", "cwnd", "window"}, 45, 45, 10)
 	}
 	netMode := "ok"
 	if zrtt == "none" && vn != "fail" {
@@ -78,7 +86,7 @@ func newRunner(r *vh.Rand) vh.Runner {
 			cancel = fmt.Sprintf("t%d", r.Pick(30, 40, 30)*20+r.Intn(25))
 		}
 	}
-	rn.plan = append(rn.plan, fmt.Sprintf("scn client=%s retry=%s vn=%s chain=%s zrtt=%s net=%s cancel=%s%s", client, boolTxt(retry), vn, chain, zrtt, netMode, cancel, psk))
+	rn.plan = append(rn.plan, fmt.Sprintf("scn client=%s retry=%s vn=%s chain=%s zrtt=%s net=%s cancel=%s%s%s", client, boolTxt(retry), vn, chain, zrtt, netMode, cancel, psk, zsize))
 	nf := r.Pick(40, 30, 20, 10)
 	for i := 0; i < nf; i++ {
 		kind := pickS(r, []string{"drop", "dup", "delay", "flip", "trunc"}, 40, 20, 15, 20, 5)
@@ -229,7 +237,7 @@ func (rn *runner) Exec(op string) string {
 			return "skip"
 		}
 		m := kv(f[1:])
-		rn.spec = scnSpec{client: m["client"], retry: m["retry"] == "1", vn: m["vn"], chain: m["chain"], zrtt: m["zrtt"], net: m["net"], cancel: m["cancel"], psk: m["psk"]}
+		rn.spec = scnSpec{client: m["client"], retry: m["retry"] == "1", vn: m["vn"], chain: m["chain"], zrtt: m["zrtt"], net: m["net"], cancel: m["cancel"], psk: m["psk"], zsize: m["zsize"]}
 		if rn.spec.client == "" {
 			rn.spec.client = "plain"
 		}
